@@ -427,6 +427,9 @@ func init() {
 				}
 				// wrong chain id argument
 				c.Add(map[string]any{"op": "tx.recover", "hex": hx(raw), "cid": big.NewInt(cid + 1).String(), "entry": "raw"}, "wrongcid")
+				// the same magnitude with the other sign, zero, and the "not configured" default -1 are other chain ids too
+				c.Add(map[string]any{"op": "tx.recover", "hex": hx(raw), "cid": big.NewInt(-cid).String(), "entry": Pick(r, []string{"raw", "1559"})}, "wrongcid.neg")
+				c.Add(map[string]any{"op": "tx.recover", "hex": hx(raw), "cid": Pick(r, []string{"0", "-1"}), "entry": "raw"}, "wrongcid.neg")
 			}
 			// arbitrary bytes
 			m := 1500
